@@ -419,17 +419,32 @@ main(int argc, char **argv)
                 return helper_main(atoi(argv[2]));
         /* history: per unit up to 15 jobs of unequal lengths; a get_completed after every 5th, a single flush after
          * every 11th submit (so the FIFO head moves while lanes stay occupied) */
+        /* argv[1] = "h1": second history - the same jobs submitted round-robin over the units, so that ALL out-of-order managers
+         * hold jobs at the same time (get_completed after every 7th, flush after every 13th submit) */
+        int rr = argc > 1 && !strcmp(argv[1], "h1");
         NH = 0;
         int sub = 0;
-        for (int ui = 0; ui < NUNITS; ui++)
-                for (int i = 0; i < 15 && NH < MAXOPS - 4; i++) {
-                        H[NH++] = (hop_t){ 1, (uint8_t) ui, (uint8_t) ((i * 7 + ui) & 3) };
-                        sub++;
-                        if (sub % 5 == 0)
-                                H[NH++] = (hop_t){ 2, 0, 0 };
-                        if (sub % 11 == 0)
-                                H[NH++] = (hop_t){ 3, 0, 0 };
-                }
+        if (!rr) {
+                for (int ui = 0; ui < NUNITS; ui++)
+                        for (int i = 0; i < 15 && NH < MAXOPS - 4; i++) {
+                                H[NH++] = (hop_t){ 1, (uint8_t) ui, (uint8_t) ((i * 7 + ui) & 3) };
+                                sub++;
+                                if (sub % 5 == 0)
+                                        H[NH++] = (hop_t){ 2, 0, 0 };
+                                if (sub % 11 == 0)
+                                        H[NH++] = (hop_t){ 3, 0, 0 };
+                        }
+        } else {
+                for (int i = 0; i < 15; i++)
+                        for (int ui = 0; ui < NUNITS && NH < MAXOPS - 4; ui++) {
+                                H[NH++] = (hop_t){ 1, (uint8_t) ui, (uint8_t) ((i * 5 + ui * 3) & 3) };
+                                sub++;
+                                if (sub % 7 == 0)
+                                        H[NH++] = (hop_t){ 2, 0, 0 };
+                                if (sub % 13 == 0)
+                                        H[NH++] = (hop_t){ 3, 0, 0 };
+                        }
+        }
         par_run(NVARIANTS, n_workers(), variant_worker, variant_crashed, NULL, 2400);
 
         rec_begin("sample");
